@@ -97,15 +97,7 @@ theorem parseUnixTimestamp_eq (s : Bytes) :
             simp only [h1, if_false, this]
         · simp [hd]
 
-theorem urlDecode_of_no_percent (s : Bytes) (h : s.all (· ≠ 37) = true) : urlDecode s = some s := by
-  unfold urlDecode; rw [if_pos h]
-
 /-! ## the credentials -/
-
-/-- the signature parameter contains no `%` after query decoding — the complement is finding class
-    `signature-double-encoded` -/
-def sigNoPercent (r : SigV2Spec.Req) : Bool :=
-  (SigV2Spec.paramValues r (sp!"Signature")).all fun s => s.all (· ≠ 37)
 
 /-- `Expires` is not beyond 9999-12-31T23:59:59Z — the complement is finding class `expires-out-of-range` -/
 def expiresInRange (r : SigV2Spec.Req) : Bool :=
@@ -114,10 +106,11 @@ def expiresInRange (r : SigV2Spec.Req) : Bool :=
     | some e => decide (e ≤ maxUnixTs)
     | none => true
 
-/-- the region on which the verdicts coincide: `wf` for the mode the request uses, plus the two
-    conditions on presigned parameters -/
+/-- the region on which the verdicts coincide: `wf` for the mode the request uses, plus the condition
+    on the presigned `Expires` (the `Signature` value needs none: it is compared as the query parser
+    delivers it, repaired — was finding class `signature-double-encoded`) -/
 def wfVerdict (r : SigV2Spec.Req) : Bool :=
-  if SigV2Spec.paramValues r (sp!"Signature") ≠ [] then wf .query r && sigNoPercent r && expiresInRange r
+  if SigV2Spec.paramValues r (sp!"Signature") ≠ [] then wf .query r && expiresInRange r
   else wf .header r
 
 /-- credentials as the model holds them; an `Expires` before the epoch does not parse in the model -/
@@ -152,18 +145,17 @@ theorem presigned_case (r : SigV2Spec.Req) (h : wfVerdict r = true)
         (fun p => (⟨.presignedUrl, p.accessKey, p.signature, some p.expires⟩ : Presented)) =
       (SigV2Spec.queryCredentials r).bind toPresented := by
   simp only [wfVerdict, hS, ne_eq, not_false_eq_true, if_true, Bool.and_eq_true] at h
-  obtain ⟨⟨-, hsig⟩, hexp⟩ := h
+  obtain ⟨-, hexp⟩ := h
   unfold parsePresigned SigV2Spec.queryCredentials
   rw [getUnique_query, getUnique_query, getUnique_query]
-  unfold sigNoPercent at hsig
   unfold expiresInRange at hexp
   generalize SigV2Spec.paramValues r (sp!"AWSAccessKeyId") = A at *
   generalize SigV2Spec.paramValues r (sp!"Signature") = S at *
   generalize SigV2Spec.paramValues r (sp!"Expires") = E at *
   match A, S, E with
   | [ak], [sg], [ex] =>
-    simp only [theOnly, List.all_cons, List.all_nil, Bool.and_true] at hsig hexp ⊢
-    rw [parseUnixTimestamp_eq, urlDecode_of_no_percent sg hsig]
+    simp only [theOnly, List.all_cons, List.all_nil, Bool.and_true] at hexp ⊢
+    rw [parseUnixTimestamp_eq]
     cases hev : SigV2Spec.expiresValue ex with
     | none => simp
     | some e =>
@@ -259,7 +251,7 @@ theorem wf_of_credentials (r : SigV2Spec.Req) (c : SigV2Spec.Creds) (h : wfVerdi
   · rename_i hS
     rw [if_pos hS]
     simp only [Bool.and_eq_true] at h
-    exact h.1.1
+    exact h.1
   · rename_i hS
     rw [if_neg hS]
     exact h
